@@ -38,6 +38,7 @@ type World struct {
 
 	noret map[*ssa.Function]bool
 	catalog *Catalog
+	raise   *Raise
 }
 
 func corePkg(path string) bool {
